@@ -176,6 +176,29 @@ def run(tier, work):
             gl.append((g, fn, cs[b:b + 400]))
     t1 = time.time()
     exs = vlib.run_vdrv(exe, conf, scen, work, tag="run", timeout=60)
+    # an evaluation may end the whole batch without any failure of the driver (an error that no catch can hold - e.g. too
+    # many spread arguments -, or the destruction of the calling object): the evaluations after it run in a new batch
+    for rnd_ in range(16):
+        more = []
+        for ex in exs:
+            g, fn, cs = gl[int(ex["id"])]
+            started = [ev["id"] for ev in ex["events"] if ev.get("e") == "Call"]
+            if vlib.crashed(ex) or not started or len(started) == len(cs):
+                continue
+            rest = [(cid, c) for cid, c in cs if cid > started[-1]]
+            if rest:
+                gl[int(ex["id"])] = (g, fn, [(cid, c) for cid, c in cs if cid <= started[-1]])
+                more.append((g, rest))
+        if not more:
+            break
+        scen2 = []
+        for g, rest in more:
+            fn = "c01/r%d_%d" % (rnd_, len(scen) + len(scen2))
+            open(os.path.join(mdir, fn + ".c"), "w").write(batch_src(rest, efuns))
+            scen2.append((str(len(scen) + len(scen2)), ["call /master set_clog #1", "call /%s run" % fn]))
+            gl.append((g, fn, rest))
+        scen += scen2
+        exs += vlib.run_vdrv(exe, conf, scen2, work, tag="run%d" % rnd_, timeout=60)
     print("RUN %d batches (one process per efun / operator) in %.1fs" % (len(exs), time.time() - t1))
     projs = []
     nret = {"value": 0, "error": 0}
@@ -193,6 +216,13 @@ def run(tier, work):
                 nret[ev["out"]] = nret.get(ev["out"], 0) + 1
                 last = None
         sigs = vlib.crashed(ex)
+        if last is not None and not sigs:
+            # the evaluation ended the batch but not the driver: an LPC error nothing could catch (reported to the master), or
+            # the calling object is gone - still one of the two allowed outcomes
+            uncaught = any(ev.get("e") == "CallErr" for ev in ex["events"])
+            out.append({"e": "Return", "out": "error" if uncaught else "value"})
+            nret["error" if uncaught else "value"] += 1
+            last = None
         ncalls = sum(1 for p in out if p["e"] == "Call")
         compiled = ncalls > 0 or any(ev.get("e") == "CallRet" for ev in ex["events"])
         out.append({"e": "Alive", "clean": not sigs and compiled and ncalls == len(cs)})
@@ -205,6 +235,7 @@ def run(tier, work):
         ex2 = vlib.run_vdrv(exe, conf, [scen[int(ex["id"])]], work, tag="rerun", timeout=60)[0]
         sigs2 = vlib.crashed(ex2)
         if not sigs2 and compiled:
+            print("NOTE failure of batch %s (%s) did not repeat: %s" % (fn, g, json.dumps(sigs)[:200]))
             continue
         cmap = dict(cs)
         c = cmap.get(last) if last is not None else None
